@@ -233,12 +233,66 @@ def write_replay(pid, v):
     os.makedirs(d, exist_ok=True)
     body = {'property': pid, 'clause': v.get('clause'), 'sig': v.get('sig'),
             'detail': v.get('detail'), 'case': v.get('case')}
+    if v.get('env_pass') is not None:
+        body['env_pass'] = v['env_pass']
     name = '%016x.json' % h64({'c': body['clause'], 's': body['sig'],
                                'k': body['case']})
     path = os.path.join(d, name)
     with open(path, 'w') as f:
         json.dump(body, f, indent=1, sort_keys=True, default=repr)
     return path
+
+
+# ------------------------------------------------------------ environment passes
+# A module may declare  ENV_PASSES = [{'name': 'python -O', 'argv': ['-O'],
+# 'env': {...}, 'filter': fn(case) -> bool}, ...]: the selected cases are run
+# once more in a child interpreter started with those flags / that environment
+# (what `assert` compiles to, the locale's encoding ... are properties of the
+# whole interpreter).  Results are merged into the parent's aggregation; every
+# violation class found there carries env=<name> in its signature.
+
+def _run_env_passes(mod, tier, seed, agg):
+    import pickle
+    import subprocess
+    if os.environ.get('VT_ENV_PASS'):
+        return
+    for i, ep in enumerate(getattr(mod, 'ENV_PASSES', None) or ()):
+        tmp = os.path.join(env.scratch('vtenv'), 'agg.pickle')
+        e = dict(os.environ)
+        e.update(ep.get('env') or {})
+        e['VT_ENV_PASS'] = str(i)
+        e['VT_ENV_PASS_OUT'] = tmp
+        cmd = [env.PY] + list(ep.get('argv') or []) + [os.path.join(env.LIB, 'vt', 'main.py'), mod.ID,
+                                                       '--tier', tier, '--seed', str(seed)]
+        p = subprocess.run(cmd, env=e, stdout=subprocess.PIPE, stderr=subprocess.STDOUT)
+        if not os.path.exists(tmp):
+            agg.harness.append('environment pass %r produced no result (exit %s)\n%s'
+                               % (ep['name'], p.returncode, p.stdout.decode('utf-8', 'replace')[-2000:]))
+            continue
+        with open(tmp, 'rb') as f:
+            sub = pickle.load(f)
+        agg.evals += sub['evals']
+        agg.cases += sub['cases']
+        agg.nt_count += sub['nt']
+        agg.counters['executions_in_env_pass_%s' % ep['name'].replace(' ', '_')] += sub['evals']
+        agg.harness.extend(sub['harness'])
+        for key, (v, n) in sub['vclasses'].items():
+            v = dict(v)
+            v['sig'] = dict(v.get('sig') or {}, env=ep['name'])
+            v['detail'] = '(in a child interpreter: %s %s)\n%s' % (' '.join(ep.get('argv') or []), ep.get('env') or '', v.get('detail') or '')
+            v['env_pass'] = i
+            k2 = canon([v.get('clause'), v['sig']])
+            if k2 not in agg.vclasses:
+                agg.vclasses[k2] = [v, n]
+            else:
+                agg.vclasses[k2][1] += n
+
+
+def _env_pass_filter(mod):
+    i = os.environ.get('VT_ENV_PASS')
+    if i is None:
+        return None
+    return (getattr(mod, 'ENV_PASSES')[int(i)]).get('filter') or (lambda c: True)
 
 
 def run_check(mod, tier, seed, chunk=None, gate_n=48):
@@ -251,6 +305,9 @@ def run_check(mod, tier, seed, chunk=None, gate_n=48):
     ctx = multiprocessing.get_context('fork')
     nproc = getattr(mod, 'NPROC', NPROC)
     gen = mod.cases(tier, seed)
+    flt = _env_pass_filter(mod)
+    if flt is not None:
+        gen = (c for c in gen if flt(c))
     first_cases = []
 
     def feed():
@@ -280,9 +337,18 @@ def run_check(mod, tier, seed, chunk=None, gate_n=48):
                     capped = 'time budget %ss' % budget
                     pool.terminate()
                     break
+    if os.environ.get('VT_ENV_PASS') is not None:
+        # child of an environment pass: hand the aggregation to the parent
+        import pickle
+        with open(os.environ['VT_ENV_PASS_OUT'], 'wb') as f:
+            pickle.dump({'evals': agg.evals, 'cases': agg.cases,
+                         'nt': len(agg.nt) + agg.nt_count,
+                         'vclasses': agg.vclasses, 'harness': agg.harness}, f)
+        return 0
     if hasattr(mod, 'finish'):
         for v in mod.finish(agg, tier) or ():
             agg.violations.append(v)
+    _run_env_passes(mod, tier, seed, agg)
     agg.samples = first_cases
     return finalize(mod, tier, seed, agg, capped, time.time() - t0)
 
@@ -384,6 +450,15 @@ def write_evidence(mod, tier, seed, agg, capped, wall, nviol, harness=False):
 def replay(mod, path):
     with open(path) as f:
         body = json.load(f)
+    if body.get('env_pass') is not None and os.environ.get('VT_ENV_PASS') is None:
+        # found in an environment pass: replay in the same kind of interpreter
+        import subprocess
+        ep = mod.ENV_PASSES[body['env_pass']]
+        e = dict(os.environ)
+        e.update(ep.get('env') or {})
+        e['VT_ENV_PASS'] = str(body['env_pass'])
+        return subprocess.call([env.PY] + list(ep.get('argv') or []) +
+                               [os.path.join(env.LIB, 'vt', 'main.py'), mod.ID, '--replay', path], env=e)
     _init_worker(mod.__name__)
     res = mod.run_case(body['case']) or {}
     vs = res.get('violations') or []
